@@ -224,8 +224,8 @@ Lemma c40_run_state text chars fill : bytes_ok chars = true -> forall out,
   exists s u, run_vals (fst (tabs text)) (snd (tabs text)) (c40_run_vals text chars fill) 0 false out = Ok (s, u, out ++ chars).
 Proof.
   intros OK out. unfold c40_run_vals. destruct (c40_chars text chars OK out) as [V R]. split.
-  - apply Forall_app. split; [exact V|]. destruct fill; constructor; [lia|constructor].
-  - rewrite run_vals_app, R. cbn [bind fst snd]. destruct fill; cbn; eexists; eexists; reflexivity.
+  - apply Forall_app. split; [exact V|]. destruct fill as [|[|[|[|[|[|[|fill]]]]]]]; cbn [fill_vals]; repeat constructor; lia.
+  - rewrite run_vals_app, R. cbn [bind fst snd]. destruct fill as [|[|[|[|[|[|[|fill]]]]]]]; cbn; eexists; eexists; reflexivity.
 Qed.
 
 (* the packed values drive the decoder's state machine exactly like the flat value list *)
